@@ -294,9 +294,46 @@ static std::shared_ptr<OdeDef> makePR(Rng& r, double t0) {
     return d;
 }
 
-static const char* kC20Classes[] = {"osc", "lin-osc", "pendulum", "lin-dosc", "osc-damped", "lin-decay", "pr", "lin-stiff"};
-static const int kNC20Classes = 8;
+// A (q,u) oscillator and an independent z system in one State (nq, nu and nz all > 0), one of them slow
+// and small, the other fast and O(1): the fast part alone should limit the step, so an error norm
+// that looks at the wrong slice of the error estimate (or ignores the z or u block) loses accuracy.
+static std::shared_ptr<OdeDef> makeMixed(Rng& r, bool zFast, double t0) {
+    std::shared_ptr<OdeDef> a = makeOsc(r, false, t0), b = makeLinZ(r, "lin-osc", t0);
+    // time-scale the slow part by sigma and shrink it by amp: y_slow(t) = amp * y(t0 + sigma (t - t0))
+    const double sigma = r.uni(0.05, 0.15), amp = r.uni(0.02, 0.1);
+    auto d = std::make_shared<OdeDef>();
+    const int nq = a->nq, nz = b->nz;
+    d->nq = nq; d->nz = nz; d->t0 = t0; d->cls = zFast ? "mix-zfast" : "mix-ufast";
+    std::vector<double> ya, yb; a->exact(t0, ya); b->exact(t0, yb);
+    const double sa = zFast ? sigma : 1.0, ka = zFast ? amp : 1.0, sb = zFast ? 1.0 : sigma, kb = zFast ? 1.0 : amp;
+    d->q0.resize(nq); d->u0.resize(nq); d->z0.resize(nz);
+    for (int i = 0; i < nq; ++i) { d->q0[i] = ka * ya[i]; d->u0[i] = ka * sa * ya[nq + i]; }
+    for (int i = 0; i < nz; ++i) d->z0[i] = kb * yb[i];
+    d->rho = std::max(sa * a->rho, sb * b->rho);
+    auto ra = a->rhs, rb = b->rhs;
+    d->rhs = [ra, rb, nq, nz, sa, sb](double t, const double* q, const double* u, const double* z, double* ud, double* zd) {
+        // both subsystems are linear and autonomous: scaling time by s scales q'' by s^2 (u carries one factor s), z' by s
+        double uu[8], tmp[8];
+        for (int i = 0; i < nq; ++i) uu[i] = u[i] / sa;
+        ra(t, q, uu, nullptr, ud, nullptr); for (int i = 0; i < nq; ++i) ud[i] *= sa * sa;
+        rb(t, nullptr, nullptr, z, tmp, zd); for (int i = 0; i < nz; ++i) zd[i] *= sb;
+    };
+    auto ea = a->exact, eb = b->exact;
+    d->exact = [ea, eb, nq, nz, sa, sb, ka, kb, t0](double t, std::vector<double>& y) {
+        std::vector<double> ya, yb; ea(t0 + sa * (t - t0), ya); eb(t0 + sb * (t - t0), yb);
+        y.assign(2 * nq + nz, 0.0);
+        for (int i = 0; i < nq; ++i) { y[i] = ka * ya[i]; y[nq + i] = ka * sa * ya[nq + i]; }
+        for (int i = 0; i < nz; ++i) y[2 * nq + i] = kb * yb[i];
+    };
+    d->desc.set("cls", d->cls).set("qu", a->desc).set("z", b->desc).set("sigma", sigma).set("amp", amp);
+    return d;
+}
+
+static const char* kC20Classes[] = {"osc", "lin-osc", "pendulum", "lin-dosc", "osc-damped", "lin-decay", "pr", "lin-stiff", "mix-zfast", "mix-ufast"};
+static const int kNC20Classes = 10;
 static std::shared_ptr<OdeDef> makeByClass(const std::string& cls, Rng& r, double t0) {
+    if (cls == "mix-zfast") return makeMixed(r, true, t0);
+    if (cls == "mix-ufast") return makeMixed(r, false, t0);
     if (cls == "osc") return makeOsc(r, false, t0);
     if (cls == "osc-damped") return makeOsc(r, true, t0);
     if (cls == "pendulum") return makePendulum(r, t0);
@@ -889,7 +926,7 @@ static void checkC20(Ctx& c, long i, Rng& r) {
 
     const double alpha = accExponent(kind);
     int dLo, dHi; accRange(kind, dLo, dHi);
-    const bool infNorm = r.coin(0.3);
+    const bool infNorm = r.coin(cls.compare(0, 4, "mix-") == 0 ? 0.6 : 0.3);   // the mixed classes exist to exercise the per-block norm bookkeeping
     auto baseWit = [&](const std::string& what) { return Json::obj().set("integrator", name).set("sys", def->desc).set("t0", t0).set("T", T).set("infNorm", infNorm).set("what", what); };
 
     if (mode == 0 || mode == 1) {
